@@ -999,7 +999,11 @@ class AASDataChecker(DataChecker):
                               **kwargs)
         else:
             kwargs['value'] = getattr(object_, attribute_name)
-            return self.check(getattr(object_, attribute_name) == expected_value,
+            value = getattr(object_, attribute_name)
+            # NaN is the one value that is not == itself; two NaN values are the same data
+            both_nan = isinstance(value, float) and isinstance(expected_value, float) \
+                and value != value and expected_value != expected_value
+            return self.check(value == expected_value or both_nan,
                               "Attribute {} of {} must be == {}".format(attribute_name, repr(object_), expected_value),
                               **kwargs)
 
